@@ -340,6 +340,39 @@ fn strip_sentinel(b: &[u8], nonce: &str) -> (Vec<u8>, bool) {
     }
 }
 
+/// a writer that never blocks the harness: the bytes are written by a thread of their own (a bridge
+/// that has stopped reading must show up as a timeout of the session, not as a hung check); dropping
+/// the `AsyncWriter` closes the descriptor once everything queued has been written
+struct AsyncWriter {
+    tx: std::sync::mpsc::Sender<Vec<u8>>,
+}
+
+impl AsyncWriter {
+    fn new<W: Write + Send + 'static>(mut w: W) -> AsyncWriter {
+        let (tx, rx) = std::sync::mpsc::channel::<Vec<u8>>();
+        std::thread::spawn(move || {
+            while let Ok(b) = rx.recv() {
+                if w.write_all(&b).is_err() {
+                    break;
+                }
+                let _ = w.flush();
+            }
+            // `w` is dropped here: the descriptor is closed
+        });
+        AsyncWriter { tx }
+    }
+}
+
+impl Write for AsyncWriter {
+    fn write(&mut self, b: &[u8]) -> std::io::Result<usize> {
+        let _ = self.tx.send(b.to_vec());
+        Ok(b.len())
+    }
+    fn flush(&mut self) -> std::io::Result<()> {
+        Ok(())
+    }
+}
+
 struct SessionResult {
     boundary: Option<usize>, // where the raw (upgraded) part of the output starts, when known
     end: &'static str,       // open | closed | timeout
@@ -736,7 +769,7 @@ fn run_proxy(ctx: &Ctx, l: &[Sx]) -> Sx {
     cmd.env_remove("RUST_BACKTRACE");
     cmd.stdin(Stdio::piped()).stdout(Stdio::piped()).stderr(Stdio::null());
     let mut child = cmd.spawn().expect("spawn varlink");
-    let mut stdin = child.stdin.take();
+    let mut stdin = child.stdin.take().map(AsyncWriter::new);
     let coll = Collector::start(child.stdout.take().unwrap());
     let mut guard = ChildGuard::new(child);
 
@@ -776,16 +809,6 @@ fn run_proxy(ctx: &Ctx, l: &[Sx]) -> Sx {
         }
     }
     let mut exit = exit_sx(st);
-    if direct_mode && res.end == "closed" && c.client != "closeearly" {
-        // the service closed the connection and the pump stopped by itself: whether its last read saw the
-        // end of the stream (status 0) or a reset because the service left input unread (status 1, an
-        // I/O error) is a race between the pump's read and the service's close()
-        if let Sx::Atom(a) = &exit {
-            if a == "0" || a == "1" {
-                exit = sx::atom("closed-by-service");
-            }
-        }
-    }
     if st.is_some() {
         // everything the bridge wrote before it exited
         let t0 = Instant::now();
@@ -840,6 +863,7 @@ fn run_proxy(ctx: &Ctx, l: &[Sx]) -> Sx {
     let nsvc = c.worlds.len();
     let mut direct = Vec::new();
     let mut direct_replies: Vec<Sx> = Vec::new(); // of the single target of the pump modes
+    let mut direct_closed = false; // did a service close its direct connection?
     for t in 0..=nsvc {
         let target = if t == nsvc { Target::Resolver } else { Target::Svc(t) };
         let mine: Vec<Vec<u8>> = routes.iter().filter(|r| r.0 == target).map(|r| r.1.clone()).collect();
@@ -852,6 +876,9 @@ fn run_proxy(ctx: &Ctx, l: &[Sx]) -> Sx {
         let r = direct_run(&address, &mine, &pl, t == nsvc);
         if let Some(d) = &r {
             direct_replies.extend(wire::split_replies(&unapply_bytes(&sub, &d.out)));
+            if d.end == "closed" {
+                direct_closed = true;
+            }
         }
         direct.push(match r {
             Some(d) => sx::list(vec![sx::nat(t), sx::tagged("out", wire::split_replies(&unapply_bytes(&sub, &d.out))), sx::bs(&d.raw), sx::atom(d.end)]),
@@ -883,6 +910,16 @@ fn run_proxy(ctx: &Ctx, l: &[Sx]) -> Sx {
     drop(handles);
     drop(resolver);
     let _ = std::fs::remove_dir_all(&sub.dir);
+    if direct_mode && direct_closed {
+        // the service closes the connection (the direct run shows it): the pump stops; whether it
+        // then sees the end of the stream (status 0) or a reset / broken pipe because the service left
+        // input unread (status 1, an I/O error) is a race between its read/write and the service's close()
+        if let Sx::Atom(a) = &exit {
+            if a == "0" || a == "1" {
+                exit = sx::atom("closed-by-service");
+            }
+        }
+    }
     let panicked = matches!(&exit, Sx::Atom(a) if a == "101");
     // kept for replaying old observations: since aebf686 (half-close) the replies of a closeearly
     // session behind a pump are complete and deterministic, the full list is printed
